@@ -4,7 +4,14 @@ package main
 // by VERIF_SEED, so that a disagreement replays exactly.
 type rng struct{ s uint64 }
 
-func newRng(seed uint64) *rng { return &rng{s: seed*0x9E3779B97F4A7C15 + 0x1234567} }
+// The seed is hashed into the start state: with a start state linear in the seed, the streams of two seeds are
+// shifts of one another and the generators (which restart at every scenario) fall into step after a few draws.
+func newRng(seed uint64) *rng {
+	z := seed*0x9E3779B97F4A7C15 + 0x1234567
+	z = (z ^ (z >> 30)) * 0xBF58476D1CE4E5B9
+	z = (z ^ (z >> 27)) * 0x94D049BB133111EB
+	return &rng{s: z ^ (z >> 31)}
+}
 
 func (r *rng) u64() uint64 {
 	r.s += 0x9E3779B97F4A7C15
